@@ -1,3 +1,5 @@
 //! Shared pieces of the correspondence harness (one binary per property under src/bin/).
 pub mod rng;
 pub mod sk;
+pub mod detcomp;
+pub mod internops;
